@@ -113,4 +113,39 @@ theorem C21_checkMap_iff [DecidableEq K] (defs : List (Def K)) (sel : String →
     checkMap defs sel m k off src out = true ↔ MapOK defs sel k off src out m :=
   checkMap_iff defs sel m k off src out
 
+/-! ### Non-vacuity: a concrete nested expansion and its map (evaluated by the kernel) -/
+
+section Examples
+
+private def rz (p : Expr Nat) (q : Qubit) : Gate Nat := { name := "RZ", params := [p], qubits := [q], mods := [] }
+private def exDefs : List (Def Nat) :=
+  [ { name := "a", params := ["x"], spec := .seq ["q", "r"]
+        [rz (.var "x") (.var "q"),
+         { name := "b", params := [.bin (.var "x") .plus (.number 1)], qubits := [.var "r"], mods := [] }] },
+    { name := "b", params := ["y"], spec := .seq ["q"] [rz (.var "y") (.var "q"), rz (.number 2) (.var "q")] } ]
+private def inv (n : String) (p : Expr Nat) (qs : List Qubit) : Instr Nat :=
+  .gate { name := n, params := [p], qubits := qs, mods := [] }
+private def exSrc : List (Instr Nat) := [.other 1, inv "a" (.number 7) [.fixed 3, .fixed 4], inv "m" .pi [.fixed 0]]
+private def exOut : List (Instr Nat) :=
+  [.other 1, .gate (rz (.number 7) (.fixed 3)),
+   .gate (rz (.bin (.number 7) .plus (.number 1)) (.fixed 4)), .gate (rz (.number 2) (.fixed 4)),
+   inv "m" .pi [.fixed 0]]
+private def exMap : List Entry :=
+  [.unmodified 0 0,
+   .rewritten 1 "a" 1 4 [.unmodified 0 0, .rewritten 1 "b" 1 3 [.unmodified 0 0, .unmodified 1 1]],
+   .unmodified 2 4]
+
+example : checkMap exDefs (fun _ => true) exMap 0 0 exSrc exOut = true := by decide
+example : MapOK exDefs (fun _ => true) 0 0 exSrc exOut exMap :=
+  (C21_checkMap_iff _ _ _ _ _ _ _).1 (by decide)
+/-- a map whose nested range is not relative to the parent (absolute indices 2..4) is rejected -/
+example : checkMap exDefs (fun _ => true)
+    [.unmodified 0 0, .rewritten 1 "a" 1 4 [.unmodified 0 1, .rewritten 1 "b" 2 4 [.unmodified 0 0, .unmodified 1 1]],
+     .unmodified 2 4] 0 0 exSrc exOut = false := by decide
+example : (match expandMap exDefs (fun _ => true) exSrc with
+    | .ok (out, m) => decide (out = exOut) && checkMap exDefs (fun _ => true) m 0 0 exSrc out
+    | _ => false) = true := by decide
+
+end Examples
+
 end QV.C21
